@@ -8,8 +8,8 @@ import PromModel.Suites.HistSuite
                               oldest first, joined by `|` (`-` if none)
   model: the layout-level appender (`Prom.Hist.appendHist`) decides the chunk contents, `Prom.HistChunk.encodeChunk`
          gives the bytes (byte-exact comparison with the real `HistogramChunk.Bytes()`).
-  judge: independent of the appended sequence — every integer chunk byte string the implementation produced is decoded by the
-         model's transcription of `histogramIterator` and encodes back to exactly the same bytes
+  judge: independent of the appended sequence — every chunk byte string the implementation produced is decoded by the
+         model's transcription of `histogramIterator` / `floatHistogramIterator` and encodes back to exactly the same bytes
          (`histchunk_roundtrip`'s statement evaluated on real chunks).
 -/
 namespace Prom.HistBytesSuite
@@ -56,16 +56,18 @@ def runLines : St → List String → List String
 def model (ops : List String) : List String := runLines {} ops
 
 /-- `decodeChunk` then `encodeChunk` gives the same bytes -/
-def roundtrips (bytes : List Nat) : Bool :=
-  match decodeChunk bytes with
+def roundtrips (float : Bool) (bytes : List Nat) : Bool :=
+  match (if float then decodeChunkF bytes else decodeChunk bytes) with
   | some c => encodeChunk c == bytes
   | none => false
 
 def judgeChunk (k : Nat) (tok : String) : Option String :=
-  if tok.startsWith "f:" ∨ tok = "-" then none
-  else if tok.startsWith "i:" then
+  if tok = "-" then none
+  else if tok.startsWith "i:" ∨ tok.startsWith "f:" then
     match bytesOfHex? (tok.drop 2).toString with
-    | some bs => if roundtrips (bs.map (·.toNat)) then none else some s!"violation decode-encode op={k} chunk={tok}"
+    | some bs =>
+      if roundtrips (tok.startsWith "f:") (bs.map (·.toNat)) then none
+      else some s!"violation decode-encode op={k} chunk={tok}"
     | none => some s!"violation bad-hex op={k}"
   else some s!"violation bad-token op={k} {tok}"
 
